@@ -163,7 +163,7 @@ def check(ctx, case):
     kind = case["kind"]
     if kind in ("tick_text", "tick_text_list"):
         ks = range(case["k0"], case["k1"]) if kind == "tick_text" else case["ks"]
-        ctx.begin(case)
+        ctx.begin(case, nontrivial=False)
         ctx.evaluations += len(ks) - 1
         for k in ks:
             ctx.mon("tick_text")
